@@ -488,7 +488,7 @@ fn doc_len(tier: Tier) -> u32 {
 const EXH_BLOCK: u64 = 60_000;
 const DOC_BLOCK: u64 = 8_000;
 fn random_cases(tier: Tier) -> u64 {
-    tier.pick(100_000, 1_500_000)
+    tier.pick(400_000, 1_500_000)
 }
 const RAND_BLOCK: u64 = 12_500;
 
